@@ -31,6 +31,9 @@ KIND_OF = {
 PRELUDE = "\n".join(
     [f"class T_{n}: pass" for n in ["p1", "p2", "p3", "a1", "a2", "a3", "k1", "k2", "k3", "va", "kw", "ret"]]
     + [f"{d} = ('{d}',)" for d in ["d1", "d2", "d3", "d4", "d5", "d6", "kd1", "kd2", "kd3"]]
+    # spelling 2 wraps every default / annotation in nested calls with keyword arguments that evaluate to the
+    # wrapped object itself, so CPython still records the same defaults and annotations
+    + ["def _w(v=None, **kw): return v", "def _a(t, **kw): return t"]
 ) + "\n"
 
 
@@ -40,9 +43,9 @@ def render_params(case: dict, variant: int = 0) -> str:
     def one(p, star=""):
         s = star + p["name"]
         if ann:
-            s += f": T_{p['name']}"
+            s += f": _a(T_{p['name']}, m=_w(v=_w(v=0)))" if variant == 2 else f": T_{p['name']}"
         if p["default"] != "none" and not star:
-            s += (" = " if ann else "=") + p["default"]
+            s += (" = " if ann else "=") + (f"_w(v=_w(v={p['default']}), **_w(v={{}}))" if variant == 2 else p["default"])
         return s
 
     ref = case["ref"]
@@ -68,7 +71,7 @@ def render_params(case: dict, variant: int = 0) -> str:
 def render_case(case: dict, variant: int = 0) -> tuple[str, str]:
     """Returns (source, access path of the function inside the executed namespace)."""
     sig = render_params(case, variant)
-    ret = " -> T_ret" if case["annotated"] else ""
+    ret = (" -> _a(T_ret, m=_w(v=_w(v=0)))" if variant == 2 else " -> T_ret") if case["annotated"] else ""
     ctx = case["ctx"]
     if ctx == "def":
         return PRELUDE + f"def f({sig}){ret}:\n    return 0\n", "f"
@@ -104,10 +107,25 @@ def strip(ps: list, keys=("name", "kind", "default")) -> list:
     return [{k: p[k] for k in keys} for p in ps]
 
 
-def check_params(run: Run, griffe, cases: list, variants=(0, 1)):
+def _unwrap_defaults(gparams: list, ns: dict) -> list:
+    """Spelling 2: a default is written `_w(v=_w(v=dN), ...)`; its value (what CPython binds) is dN's."""
+    out = []
+    for p in gparams:
+        if p["default"] not in ("none", "()", "{}") :
+            try:
+                p = dict(p, default=eval(p["default"], dict(ns))[0])  # noqa: S307
+            except Exception:  # noqa: BLE001
+                p = dict(p, default="<unevaluable: " + p["default"] + ">")
+        out.append(p)
+    return out
+
+
+def check_params(run: Run, griffe, cases: list, variants=(0, 1, 2)):
     drift = 0
     for case in cases:
         for variant in variants:
+            if variant == 2 and not (case["annotated"] or any(p["default"] != "none" for p in case["ref"])):
+                continue
             src, access = render_case(case, variant)
             sig = {"part": "params", "ctx": case["ctx"], "npos": case["npos"], "nargs": case["nargs"], "ndef": case["ndef"], "vararg": case["vararg"], "nkw": case["nkw"], "kwarg": case["kwarg"], "annotated": case["annotated"]}
             ident = dict(sig, kwmask=case["kwmask"], variant=variant)
@@ -135,6 +153,8 @@ def check_params(run: Run, griffe, cases: list, variants=(0, 1)):
                     obj = mod[access]
                     gparams = project_griffe(griffe, obj.parameters)
                     text = None
+                if variant == 2:
+                    gparams = _unwrap_defaults(gparams, ns)
             except Exception as exc:  # noqa: BLE001
                 run.violation(dict(sig, clause="total"), f"visit raised {exc!r} on\n{src}", {"case": ident, "source": src})
                 continue
@@ -145,7 +165,7 @@ def check_params(run: Run, griffe, cases: list, variants=(0, 1)):
             # property: Griffe == reference (names, order, kinds, which have defaults, default expressions)
             if norm_variadic(strip(gparams)) != case["ref"]:
                 run.violation(dict(sig, clause="signature"), f"Griffe parameters {strip(gparams)} != CPython {case['ref']} for\n{src.replace(PRELUDE, '')}", {"case": ident, "source": src})
-            elif strip(gparams) != case["impl"]:
+            elif strip(gparams) != case["impl"] and variant != 2:
                 drift += 1
             if case["ctx"] != "lambda":
                 # required-ness as CPython binds them (non-variadic)
@@ -191,14 +211,15 @@ def render_prog(case: dict) -> str:
         selfarg = "self, " if case["scope"] == "class" else ""
         above = [f"{ind}@keep"] if deco == "above" else []
         below = [f"{ind}@keep"] if deco == "below" else []
+        adef = "async def" if d.get("isasync") else "def"
         if role == "overload":
-            lines += [*above, f"{ind}@overload", *below, f"{ind}def {n}({selfarg}x{i}: int) -> int:", f'{ind}    """id={i}"""']
+            lines += [*above, f"{ind}@overload", *below, f"{ind}{adef} {n}({selfarg}x{i}: int) -> int:", f'{ind}    """id={i}"""']
         elif role == "plain":
-            lines += [*above, f"{ind}def {n}({selfarg}x{i}=None):", f'{ind}    """id={i}"""', f"{ind}    return x{i}"]
+            lines += [*above, f"{ind}{adef} {n}({selfarg}x{i}=None):", f'{ind}    """id={i}"""', f"{ind}    return x{i}"]
         elif role == "property":
-            lines += [*above, f"{ind}@property", *below, f"{ind}def {n}({selfarg.rstrip(', ') or 'x'}):", f'{ind}    """id={i}"""', f"{ind}    return {i}"]
+            lines += [*above, f"{ind}@property", *below, f"{ind}{adef} {n}({selfarg.rstrip(', ') or 'x'}):", f'{ind}    """id={i}"""', f"{ind}    return {i}"]
         else:
-            lines += [*above, f"{ind}@{n}.{role}", *below, f"{ind}def {n}({selfarg}x{i}=None):", f'{ind}    """id={i}"""', f"{ind}    return None"]
+            lines += [*above, f"{ind}@{n}.{role}", *below, f"{ind}{adef} {n}({selfarg}x{i}=None):", f'{ind}    """id={i}"""', f"{ind}    return None"]
         lines.append("")
     return "\n".join(lines) + "\n"
 
@@ -300,8 +321,10 @@ def main(tier: str, replay: str | None = None):
         if "prog" in c:
             res = tlc.must(tlc.run("FuncSeq", f"FuncSeq_{tier}.cfg", workers=8), allow_violations=True)
             hit = [x for x in res.cases if x["prog"] == c["prog"] and x["scope"] == c["scope"]]
-            if not hit:
-                res = tlc.must(tlc.run("FuncSeq", f"FuncSeq_interleave_{tier}.cfg", workers=8), allow_violations=True)
+            for extra in ("interleave", "async"):
+                if hit:
+                    break
+                res = tlc.must(tlc.run("FuncSeq", f"FuncSeq_{extra}_{tier}.cfg", workers=8), allow_violations=True)
                 hit = [x for x in res.cases if x["prog"] == c["prog"] and x["scope"] == c["scope"]]
             check_progs(run, griffe, hit[:1])
         else:
@@ -320,6 +343,13 @@ def main(tier: str, replay: str | None = None):
     r3 = tlc.run("FuncSeq", f"FuncSeq_interleave_{tier}.cfg", workers=8 if tier == "thorough" else 2, timeout=900)
     tlc.must(r3)
     run.add_tlc(r3)
+    # coroutines: `async def` crossed with plain / property definitions (label state must not leak between them)
+    r4 = tlc.run("FuncSeq", f"FuncSeq_async_{tier}.cfg", workers=8 if tier == "thorough" else 2, timeout=900)
+    tlc.must(r4)
+    run.add_tlc(r4)
+    asyncs = [c for c in r4.cases if any(d.get("isasync") for d in c["prog"])]
+    if not any(c["wf"] and c["prog"][0].get("isasync") and c["prog"][0]["role"] == "property" and len(c["prog"]) > 1 for c in asyncs):
+        die("C02: async domain generated no program starting with an async property (vacuous)")
     run.exhaustive = True
     check_params(run, griffe, r1.cases)
     seen_progs = {json.dumps([c["prog"], c["scope"]], sort_keys=True) for c in r2.cases}
@@ -337,4 +367,5 @@ def main(tier: str, replay: str | None = None):
         run.note(f"funcseq: replayed all {len(wf)} executable programs and 20000 sampled non-executable ones of {len(r2.cases)}")
     check_progs(run, griffe, progs)
     check_progs(run, griffe, inter)
+    check_progs(run, griffe, asyncs)
     run.finish()
